@@ -94,9 +94,15 @@ pub(crate) fn copy_term<T: CopierTarget>(
     let mut copy_term_state = CopyTermState::new(target, attr_var_policy);
     let old_threshold = copy_term_state.target.threshold();
 
-    copy_term_state.copy_term_impl(addr)?;
-    copy_term_state.copy_attr_var_lists()?;
+    let copied = match copy_term_state.copy_term_impl(addr) {
+        Ok(()) => copy_term_state.copy_attr_var_lists(),
+        Err(err) => Err(err),
+    };
+
+    // the forwarding cells left in the source term are undone even
+    // when the copy ran out of memory.
     copy_term_state.unwind_trail();
+    copied?;
 
     let new_threshold = copy_term_state.target.threshold();
     copy_term_state.copy_pstrs()?;
